@@ -670,6 +670,10 @@ class Ref(object):
             self.events[pos][6] = True
             return True
         # running
+        if X.main is not fm:
+            # active as the auxiliary of another frame (e.g. as its plain aux): not this frame's to run
+            self.events[pos][6] = False
+            return False
         self.segue(X)
         self.recur(X)
         if X.done:
